@@ -4,6 +4,7 @@ import Tw.Model.DemoHl
 import Tw.Proofs.DemoHl
 import Tw.Proofs.DemoHistory
 import Tw.Proofs.DemoTotal
+import Tw.Proofs.DemoNoPanic
 import Tw.Gen.Demo
 
 /-!
@@ -337,6 +338,39 @@ theorem typed_roundtrip : C15_full :=
   fun objSize a w0 w ops rs ha hnew hval hrun hnp =>
     Tw.DemoHl.typed_roundtrip objSize a w0 w ops rs ha hnew hval hrun hnp
 
+/-- **`write_snap` cannot panic on typed objects** — objects whose number of fields is fixed by their
+`(type, id)` (`Typed size`), with an object-size table that agrees (`ObjSizeAgrees`, true for the
+DDNet table: `ddnet_table_agrees`) — in any reachable writer state (`Inv3`: the builders of
+consecutive snapshots form a recycle chain, so a UUID type keeps its number (repair of D28) and
+`Delta::create` sees agreeing sizes; the low-level writer's last tick is at most `last_tick`; payload
+limits are checked first).  An accepted call keeps the invariant. -/
+theorem writeSnap_never_panics_typed (size : TypeId → Nat → Nat) (objSize : Nat → Option Nat)
+    (ho : ObjSizeAgrees size objSize) (w : DemoWriter) (hinv : w.Inv3 size) (tick : Int) (items : List Item)
+    (hv : ∀ it ∈ items, it.valid) (hty : Typed size items) :
+    (∀ s, (w.writeSnap objSize tick items).2 ≠ .panic s) ∧
+    ((w.writeSnap objSize tick items).2 = .ok → (w.writeSnap objSize tick items).1.Inv3 size) :=
+  writeSnap_typed size objSize ho w hinv tick items hv hty
+
+/-- **The typed-level round trip without a no-panic hypothesis**: for every header the writer accepts
+and every history of valid calls on typed objects — any `i32` ticks in any order, any object sets,
+any messages — no call panics, and the reader reports the header fields and, in order, exactly the
+accepted calls (ticks, object sets, padded messages) without error or warning. -/
+theorem typed_roundtrip_never_panics (size : TypeId → Nat → Nat) (objSize : Nat → Option Nat)
+    (ho : ObjSizeAgrees size objSize) (a : HeaderArgs) (w0 w : DemoWriter) (ops : List Op)
+    (rs : List HResult) (ha : a.wf) (hnew : DemoWriter.new a = some w0) (hval : ∀ op ∈ ops, op.valid)
+    (hty : ∀ op ∈ ops, op.typed size) (hrun : w0.run objSize ops = (w, rs)) :
+    (∀ r ∈ rs, ∀ s, r ≠ .panic s) ∧
+    ∃ cs, readFileHl objSize w.inner.file = some (a.info, cs, [], none)
+      ∧ chunksAgree cs (expectedChunks ops rs) :=
+  typed_roundtrip_no_panic size objSize ho a w0 w ops rs ha hnew hval hty hrun
+
+/-- The DDNet object-size table satisfies `ObjSizeAgrees` for every size function that follows it on
+the ordinal types it lists (all of them in `1..0x3fff`). -/
+theorem ddnet_table_agrees (size : TypeId → Nat → Nat)
+    (h : ∀ t n, (t, n) ∈ Tw.Gen.Demo.ddnet_obj_sizes → ∀ id, size (.ordinal t) id = n) :
+    ObjSizeAgrees size ddnetObjSize :=
+  ddnet_objSizeAgrees size h
+
 /-- Since the repair of D29, `write_msg` never panics: a message that does not fit into a chunk
 (encoded, packed or compressed size) is refused with `TooLongNetMsg` before anything is written. -/
 theorem writeMsg_never_panics (w : DemoWriter) (msg : List UInt8) (s : String) :
@@ -386,6 +420,27 @@ example : exampleArgs.wf ∧ (Writer.new exampleArgs).isSome := by
   constructor
   · refine ⟨?_, ?_, ?_, ?_, ?_, ?_⟩ <;> simp [exampleArgs, inI32]
   · rw [new_accepts_iff]; simp [exampleArgs]
+
+/-- the hypotheses of the typed theorems are satisfiable: a size function that follows the DDNet
+table, and a typed object set with an ordinal and a UUID type -/
+example : ObjSizeAgrees (fun tid _ => match tid with
+    | .ordinal o => (ddnetObjSize o).getD 0
+    | .uuid _ => 2) ddnetObjSize := by
+  apply ddnet_table_agrees
+  intro t n hm id
+  have : ∀ p ∈ Tw.Gen.Demo.ddnet_obj_sizes, (ddnetObjSize p.1).getD 0 = p.2 := by decide
+  exact this (t, n) hm
+
+example : Typed (fun tid _ => match tid with
+    | .ordinal o => (ddnetObjSize o).getD 0
+    | .uuid _ => 2) [⟨.ordinal 4, 2, [10, 20, 1, 0]⟩, ⟨.uuid 0x22ca938d13803e2b9e7bd2558ea6be11, 6, [-5, 0]⟩] := by
+  intro it hit
+  simp only [List.mem_cons, List.mem_nil_iff, or_false] at hit
+  rcases hit with rfl | rfl
+  · refine ⟨by decide, ?_⟩
+    intro o ho; injection ho with ho; subst ho; decide
+  · refine ⟨rfl, ?_⟩
+    intro o ho; cases ho
 
 /-- in-range headers of each shape -/
 example : (ChunkHeader.tick (.delta 31) false).inRange ∧ (ChunkHeader.tick (.absolute (-5)) true).inRange
